@@ -98,8 +98,25 @@ def attrs_nan_fold(a):
     return {k: (v if v['t'] in ('String', 'BinaryString') else {'t': v['t'], 'v': _nan_fold(v['v'])}) for k, v in a.items()}
 
 
+# value types whose dump payload can hold float bit patterns; everything else (names, strings, byte strings, URIs, hashes)
+# is left alone - a BinaryString of 8 bytes that happen to look like a NaN must not be "canonicalised"
+FLOAT_BEARING = {'Float32', 'Float64', 'Vector2', 'Vector3', 'CFrame', 'OptionalCFrame', 'Color3', 'UDim', 'UDim2', 'Ray', 'Rect', 'NumberRange',
+                 'NumberSequence', 'ColorSequence', 'PhysicalProperties', 'Region3'}
+
+
 def canon_nan(x):
-    return refxml._canon_nan(x) if hasattr(refxml, '_canon_nan') else x
+    """fold NaN bit patterns (decimal XML text cannot carry payloads), by value type"""
+    if isinstance(x, dict):
+        if 't' in x and 'v' in x and isinstance(x['t'], str):
+            if x['t'] in FLOAT_BEARING:
+                return {'t': x['t'], 'v': _nan_fold(x['v'])}
+            if x['t'].endswith('Attributes') and isinstance(x['v'], dict):
+                return x  # attribute blobs are binary and keep payloads; compared by attrs_equiv
+            return x
+        return {k: canon_nan(v) for k, v in x.items()}
+    if isinstance(x, list):
+        return [canon_nan(v) for v in x]
+    return x
 
 
 def check_doc(rec, stats):
